@@ -184,3 +184,10 @@ SUBS = [
     Sub("planar_grid", kind="custom", custom=custom_grid, n_quick=1, n_thorough=1, shards_quick=4, shards_thorough=16,
         exhaustive_tiers=("quick", "thorough")),
 ]
+
+
+# ---- projection requested through evo_traj (--project_to_plane, combined with merging / synchronisation) -----------
+from vf.checks import c15 as _c15
+SUBS.append(Sub("cli_project", _c15.sub_traj, _c15.make_st_case(
+    project=st.sampled_from(["xy", "xz", "yz"]), tf=st.none(), downsample=st.none(), mf=st.none(), n_to_align=st.just(-1)), 300, 8000,
+    nontrivial=lambda c: True, shards_quick=4))
